@@ -408,6 +408,13 @@ class Machine:
     def immediate_done(self, st):
         return (not self.strict) and st in self.m.accept and st in self.m.tr and all(t.eh for t in self.m.tr[st])
 
+    def end_result(self, st, data, events, ub, moves):
+        """input ended on state st: DONE iff accepting; otherwise FAIL, and the parser stays failed (it rests on the fail state)"""
+        if st in self.m.accept:
+            return Res('DONE', st, False, data, events, ub, moves)
+        fail = self.m.fail
+        return Res('FAIL', fail if (fail is not None and fail in self.m.tr) else DEAD, False, data, events, ub, moves)
+
     def dispatch(self, ctx, st, sym, data, events=None, in_end=False):
         """dispatch one symbol (z3 BV8 byte or End) from state st with Data `data` (copied). Returns Res."""
         data = data.copy()
@@ -419,7 +426,7 @@ class Machine:
             moves += 1
             if moves > self.max_moves:
                 return Res('UNWIND', st, False, data, events, ub, moves)
-            if st is self.m.fail:
+            if st is self.m.fail or st is DEAD:
                 return Res('FAIL', st, False, data, events, ub, moves)
             if st not in self.m.tr:
                 return Res('TERM', st, False, data, events, ub, moves)
@@ -428,7 +435,7 @@ class Machine:
                 return Res('FAIL', st, False, data, events, ub, moves)   # "fallback for invalid state"
             if t is None:
                 if sym is End:
-                    return Res('DONE' if st in self.m.accept else 'FAIL', st, False, data, events, ub, moves)
+                    return self.end_result(st, data, events, ub, moves)
                 return Res('DONE' if st in self.m.accept else 'STUCK', st, False, data, events, ub, moves)
             nst = t.target
             consumes = not t.fall
@@ -458,7 +465,7 @@ class Machine:
                 continue
             if sym is End:
                 # an End transition was taken: the parse is over; DONE iff resting on an accepting state
-                return Res('DONE' if st in self.m.accept else 'FAIL', st, False, data, events, ub, moves)
+                return self.end_result(st, data, events, ub, moves)
             if self.immediate_done(st):
                 return Res('DONE', st, True, data, events, ub, moves)
             return Res('OK', st, True, data, events, ub, moves)
@@ -468,6 +475,16 @@ class Machine:
 # eager normal form (DESIGN §2/E2): after a symbol is consumed, transitions out of states whose transition list is exactly
 # one fall-through Else (dummy / proxy states, with or without actions) are taken at once, until the machine rests on a state
 # that looks at input or data. Used on both sides of machine-vs-machine comparisons (C05, C13, C20) and by C01.
+class _Dead:
+    """resting place after end() returned FAIL in a machine without a fail state: no state of the machine; the emitted C stores the index
+    one past the last state, which feed and end answer with FAIL"""
+    def __repr__(self):
+        return 'DEAD'
+
+
+DEAD = _Dead()
+
+
 class ERes:
     __slots__ = ('code', 'state', 'consumed', 'data', 'events', 'ub')
 
